@@ -550,6 +550,37 @@ func wholeProgramEffects(r *Run) {
 	r.Count("W1 call sites without a whole-program counterpart (no position)", nUnmapped)
 	r.Floor("W1", "bank-moving call sites confirmed through the whole program", nMoving, 9)
 	r.Floor("W1", "handler call sites classified through the whole program", nSites, 100)
+
+	// W9: premise of R11 — the tabled staking message-server methods do pay out rewards
+	r.Rule("W9", "whole-program premise of R11 (cosmos-sdk x/staking and x/distribution with bodies, VTA): each staking message-server method tabled as reward-paying (Delegate, Undelegate, BeginRedelegate, CancelUnbondingDelegation) reaches the distribution keeper's withdrawDelegationRewards, which sends coins from the distribution account to the delegator's withdraw address")
+	var wd []*ssa.Function
+	for f := range w.Funcs {
+		if f.Name() == "withdrawDelegationRewards" && fnPkgPath(f) == "github.com/cosmos/cosmos-sdk/x/distribution/keeper" {
+			wd = append(wd, f)
+		}
+	}
+	if len(wd) == 0 {
+		r.Bad("W9", "anchor/withdrawDelegationRewards", "", "the distribution keeper's withdrawDelegationRewards was not found in the whole program")
+	} else {
+		RW := w.reachers(wd)
+		nW := 0
+		for _, name := range []string{"Delegate", "Undelegate", "BeginRedelegate", "CancelUnbondingDelegation"} {
+			var ms *ssa.Function
+			for f := range w.Funcs {
+				if f.Name() == name && fnPkgPath(f) == "github.com/cosmos/cosmos-sdk/x/staking/keeper" && f.Signature.Recv() != nil && namedName(deref(f.Signature.Recv().Type())) == "msgServer" {
+					ms = f
+				}
+			}
+			if ms == nil {
+				r.Bad("W9", "anchor/msgServer."+name, "", "staking message-server method not found")
+				continue
+			}
+			nW++
+			r.Check(RW[ms], "W9", "cosmos-sdk/x/staking/keeper.msgServer."+name+"#pays-rewards", "", "reaches distribution withdrawDelegationRewards",
+				"the staking message-server method no longer reaches the distribution keeper's reward payout: the premise of R11 (a mirror must be measured because rewards are paid as a side effect) does not hold for it on this dependency version")
+		}
+		r.Floor("W9", "tabled reward-paying message-server methods", nW, 4)
+	}
 }
 
 // storeWriters: Set/Delete methods of the SDK store implementations (cachekv, gaskv, prefix, iavl, …):
